@@ -1,5 +1,6 @@
 """C09 — joining and structural extraction agree with NumPy.
 
+
 Campaign: concatenate / concat / stack over lists of 1..5 members (format mixes, compressed-axes
 choices, member index dtypes, empty members, length-0 axes, every axis incl. negative and None,
 mixed fills), the indptr splice of the GCXS joiner at kernel level, triu / tril for every k,
@@ -37,7 +38,7 @@ ASSUMPTIONS = [
 FMT = {"coo": "COO", "gcxs": "GCXS", "dok": "DOK"}
 CLAUSES = {
     1: ("representation", None), 2: ("value", None), 3: ("value", "result_not_wellformed_sparse"),
-    4: ("value", "mixed_fills_not_rejected"), 5: ("representation", "model_differs_from_spec_in_domain"),
+    4: ("value", "mixed_fills_not_rejected"),
     11: ("value", "gcxs_joiner_axis_None"), 12: ("value", "extract_input_not_COO"),
     15: ("value", "diagonal_nonsquare"), 16: ("value", "diagonal_negative_axis"),
     18: ("value", "concatenate_axis_None_DOK_member"), 19: ("value", "stack_0d_non_COO_member"),
@@ -146,6 +147,10 @@ def impl_extract(case):
     return out
 
 
+def impl_any(case):
+    return impl_join(case) if "fn" in case else impl_extract(case)
+
+
 # ------------------------------------------------------------------ generators
 def _member(rng, shape, fmt, fill, idx_dtype=None, density=None):
     s = vlib.gen_array_spec(rng, shape=shape, fills=(fill,), formats=(fmt,), density=density)
@@ -166,9 +171,9 @@ def _format_mix(rng, n, kind):
 
 def join_cases(tier, rng):
     cases = []
-    reps = 2 if tier == "quick" else 6
+    reps = 2 if tier == "quick" else 10
     ndims = (1, 2, 3) if tier == "quick" else (1, 2, 3, 4)
-    exts = (0, 1, 2, 3)
+    exts = (0, 1, 2, 3) if tier == "quick" else (0, 1, 2, 3, 5)
     for fn in ("concatenate", "stack"):
         for nd in ((0,) + ndims if fn == "stack" else ndims):
             axes = list(range(-nd, nd)) + [None] if fn == "concatenate" else list(range(-nd - 1, nd + 1))
@@ -232,7 +237,7 @@ def join_cases(tier, rng):
 
 def extract_cases(tier, rng):
     cases = []
-    reps = 1 if tier == "quick" else 3
+    reps = 1 if tier == "quick" else 5
     # triu / tril: every k in [-n-1, n+1]
     for nd in (2, 3, 4) if tier == "thorough" else (2, 3):
         for n, m in itertools.product((0, 1, 2, 3), repeat=2):
@@ -244,7 +249,7 @@ def extract_cases(tier, rng):
                         continue
                     x = _member(rng, sh, fmt, fill)
                     hi = max(n, m) + 1
-                    for k in range(-hi, hi + 1):
+                    for k in (range(-hi, hi + 1) if fill == 0 else (-1, 0, 2)):   # non-zero fill: documented ValueError
                         for op in (("triu", "tril") if fmt == "coo" else (rng.choice(["triu", "tril"]),)):
                             cases.append({"op": op, "k": k, "x": x})
     if tier == "thorough":
@@ -378,9 +383,8 @@ def campaign(build, tier, seed, report, budget=1):
     viol = []
     tags = {}
     # the judge is not a dependency of Props/C09.vo: (re)build it against the regenerated Gen/ files
-    ok, out = build.make(["Corr/C09Judge.vo"], timeout=900)
-    if not ok:
-        raise vlib.CoqEvalError("Corr/C09Judge.vo does not build:\n" + out[-1500:])
+    judge_ok, out = build.make(["Corr/C09Judge.vo"], timeout=900)
+    judge_err = None if judge_ok else out[-1500:]
 
     def tag(t):
         tags[t] = tags.get(t, 0) + 1
@@ -391,8 +395,27 @@ def campaign(build, tier, seed, report, budget=1):
         rng2 = random.Random(seed + 1)
         jc += join_cases(tier, rng2)
         ec += extract_cases(tier, rng2)
-    jr = vlib.run_impl("props.c09", "impl_join", jc, workers=6)
-    er = vlib.run_impl("props.c09", "impl_extract", ec, workers=6)
+    allr = vlib.run_impl("props.c09", "impl_any", jc + ec, workers=6)     # one pool: the JIT warm-up is paid once
+    jr, er = allr[:len(jc)], allr[len(jc):]
+    if not judge_ok:
+        # the model no longer compiles against the regenerated Gen/ files (the source left the shape the
+        # extractor pins): search for a concrete failing input with the NumPy cross-check alone
+        for c, r in zip(jc + ec, allr, strict=True):
+            if r is None or "res" not in r:
+                viol.append({"property": "C09", "op": c.get("fn", c.get("op")), "kind": "value", "clause": "hang_or_crash",
+                             "case": c, "impl": r, "replay_py": replay_join(c) if "fn" in c else replay_extract(c)})
+            elif r.get("np_ok") is False:
+                viol.append({"property": "C09", "op": c.get("fn", c.get("op")), "kind": "value", "clause": None,
+                             "case": c, "impl": r["res"], "note": "NumPy cross-check (the Coq judge does not build)",
+                             "replay_py": replay_join(c) if "fn" in c else replay_extract(c)})
+        if not viol:
+            viol.append({"property": "C09", "op": "judge", "kind": "representation", "clause": "judge_does_not_build",
+                         "case": {}, "impl": judge_err, "replay_py": "print('Corr/C09Judge.v does not build')"})
+        report["coverage"].update({"evaluations": len(allr), "distinct_nontrivial": 0,
+                                   "rule": "Coq judge unavailable: NumPy cross-check only", "samples": [],
+                                   "branch_tags": {}})
+        report.setdefault("notes", []).append("Corr/C09Judge.vo does not build: " + (judge_err or "")[-400:])
+        return viol
 
     def failed(r):
         return r is None or "res" not in r
